@@ -849,7 +849,7 @@ fn stream_case(with_triggers: bool) -> impl Strategy<Value = StreamCase> {
         run_spec(),
     )
         .prop_map(|(cmds, shards, a, b)| StreamCase { cmds, shards, a, b });
-    // scale class (about 1 case in 300): deep pipelines, long MULTI bodies, large frames
+    // scale class (about 1 case in 600): deep pipelines, long MULTI bodies, large frames
     let deep_run = || {
         (gen::deep_seg(), gen::deep_cfg(), prop_oneof![4 => Just(false), 1 => Just(true)]).prop_map(|(seg, cfg, pending)| RunSpec {
             seg,
@@ -859,7 +859,7 @@ fn stream_case(with_triggers: bool) -> impl Strategy<Value = StreamCase> {
     };
     let deep = (gen::deep_command_list(), prop_oneof![3 => Just(1u8), 1 => Just(3u8)], deep_run(), deep_run())
         .prop_map(|(cmds, shards, a, b)| StreamCase { cmds, shards, a, b });
-    prop_oneof![300 => ordinary, 1 => deep]
+    prop_oneof![600 => ordinary, 1 => deep]
 }
 
 fn bad_case() -> impl Strategy<Value = BadCase> {
